@@ -179,6 +179,11 @@ Proof. intros H x. apply (c_refl H). Qed.
 Lemma cmp_eq_inv {X} (c : X -> X -> comparison) : cmp_ok c -> forall x y, c x y = Eq -> x = y.
 Proof. intros H x y. apply (c_eq H). Qed.
 
+(** Lexicographic comparison of two literal tuples, one component at a time. *)
+Lemma pcmp_pair {X Y} (cx : X -> X -> comparison) (cy : Y -> Y -> comparison) a b a' b' :
+  pcmp cx cy (a, b) (a', b') = lex (cx a a') (cy b b').
+Proof. reflexivity. Qed.
+
 Lemma N3_cmp_ok : cmp_ok (pcmp N.compare (pcmp N.compare N.compare)).
 Proof. apply pcmp_ok; [apply N_cmp_ok | apply pcmp_ok; apply N_cmp_ok]. Qed.
 
@@ -192,7 +197,7 @@ Proof. apply pcmp_ok; [apply N_cmp_ok | apply pcmp_ok; apply N_cmp_ok]. Qed.
     *variables*, boolean variables), keeping the corresponding fact, and tries to close each
     leaf by computation, [congruence] or [lia]. *)
 Ltac py_leaf :=
-  cbn [andb orb negb]; try reflexivity; try congruence; try lia.
+  cbn [andb orb negb CompOpp]; try reflexivity; try congruence; try lia.
 
 Ltac cmp_ok_tac := repeat apply pcmp_ok; auto using scmp_ok, N_cmp_ok.
 
@@ -218,6 +223,11 @@ Ltac py_step :=
   | |- context [scmp ?a ?a] => rewrite (cmp_eq_refl scmp scmp_ok a)
   | |- context [pcmp N.compare (pcmp N.compare N.compare) ?a ?a] =>
       rewrite (cmp_eq_refl (pcmp N.compare (pcmp N.compare N.compare)) N3_cmp_ok a)
+  | |- context [scmp ?a ?b] =>
+      match goal with |- context [scmp b a] => rewrite (c_anti scmp_ok b a) end
+  | |- context [pcmp N.compare (pcmp N.compare N.compare) ?a ?b] =>
+      match goal with |- context [pcmp N.compare (pcmp N.compare N.compare) b a] =>
+        rewrite (c_anti N3_cmp_ok b a) end
   | |- context [scmp ?a ?b] => py_cmp3 scmp scmp_ok a b
   | |- context [pcmp N.compare (pcmp N.compare N.compare) ?a ?b] =>
       py_cmp3 (pcmp N.compare (pcmp N.compare N.compare)) N3_cmp_ok a b
